@@ -125,7 +125,7 @@ def cases(tier, seed):
     out = []
     reps = 1 if tier == 'quick' else 10
     for prog in progs.cat():
-        if 'nonunique' in prog.tags:
+        if 'nonunique' in prog.tags and 'cplx_replay' not in prog.tags:
             continue
         for rep in range(reps):
             for rec in ('ndarray', 'utpm11', 'utpmDP'):
@@ -143,7 +143,7 @@ def cases(tier, seed):
     return out
 
 
-REQUIRED = ['recording-value', 'replay:ndarray', 'replay:utpm', 'replay:same-object', 'trace-spec', 'trace-off', 'second-graph', 'late-independent']
+REQUIRED = ['recording-value', 'replay:ndarray', 'replay:utpm', 'replay:complex', 'replay:same-object', 'trace-spec', 'trace-off', 'second-graph', 'late-independent', 'interleaved-recording']
 
 
 def _same(a, b, tol=TOL):
@@ -167,6 +167,10 @@ def _mk_replay(rng, prog_inputs, kind, D, P):
     for shape, dom in prog_inputs:
         if kind == 'ndarray':
             out.append(gen.base_sampler(dom)(rng, tuple(shape)))
+        elif kind == 'cndarray':
+            out.append(gen.base_sampler(dom)(rng, tuple(shape)) + 1j * rng.normal(size=tuple(shape)))
+        elif kind == 'cutpm':
+            out.append(UTPM(gen.series_data(rng, D, P, shape, dom, 'random', False, 0.4) + 1j * rng.normal(size=(D, P) + tuple(shape))))
         else:
             out.append(UTPM(gen.series_data(rng, D, P, shape, dom, 'random', False, 0.4)))
     return out
@@ -219,6 +223,8 @@ def run_case(ctx, case):
         return
     # (b) replays of unrelated kinds, in random order
     seq = [REPLAYS[i] for i in rng.choice(len(REPLAYS), size=int(rng.integers(2, 6)), replace=True)]
+    if case['kind'] == 'single' and 'cplx_replay' in progs.by_name(p['prog']).tags:
+        seq += [('cndarray', 0, 0), ('cutpm', 2, 2), ('ndarray', 0, 0)]
     for (kind, D, P) in seq:
         if case['kind'] == 'single' and progs.by_name(p['prog']).maxD and D > progs.by_name(p['prog']).maxD:
             continue
@@ -230,6 +236,7 @@ def run_case(ctx, case):
         if not np.all(np.isfinite(want.data if isinstance(want, UTPM) else np.asarray(want, dtype=complex))):
             ctx.skip('out_of_domain:nonfinite'); continue
         mech = 'replay:%s:%s' % (kind, label)
+        okkey = 'replay:' + ('complex' if kind.startswith('c') else kind)
         try:
             got = cg.function([_copy(v) for v in xs])[0]
         except GraphInvariantBroken as e:
@@ -240,7 +247,7 @@ def run_case(ctx, case):
         if not ok:
             ctx.violation(mech + ':value', {'program': label, 'rec': p['rec'], 'replay': [kind, D, P], 'err': err,
                                             'steps': [list(map(str, s)) for s in desc['steps']] if case['kind'] == 'comp' else None}); return
-        ctx.ok('replay:' + kind, ('replay', label if case['kind'] == 'single' else 'comp', p['rec'], kind, D, P), exact=exact,
+        ctx.ok(okkey, ('replay', label if case['kind'] == 'single' else 'comp', p['rec'], kind, D, P), exact=exact,
                noise=err if isinstance(err, float) else None,
                sample={'program': label, 'recorded_with': p['rec'], 'replayed_with': [kind, D, P], 'bit_exact': exact} if rng.random() < 0.01 else None)
 
@@ -395,6 +402,23 @@ def _onoff(ctx, rng):
         ctx.violation('second-graph:first-graph-touched', {'first': len(cg.functionList), 'snapshot': len(snapshot), 'second': len(cg2.functionList)}); return
     cg.independentFunctionList = [x]; cg.dependentFunctionList = [c]
     cg2.independentFunctionList = [z]; cg2.dependentFunctionList = [w]
+    # a finished graph is evaluated (forward, reverse, driver) in the middle of the recording of a third graph
+    cg3 = CGraph()
+    u = Function(progs.rec_value(kind, x0, rng))
+    s1 = algopy.sin(u) * u
+    g1 = cg.function([rng.normal(size=3)])[0]                     # uses the finished graph, e.g. to obtain a constant
+    cg.pushforward([UTPM(rng.normal(size=(2, 1, 3)))]); cg.pullback([UTPM(rng.normal(size=(2, 1, 3)))])
+    n_before = len(cg3.functionList)
+    s2 = s1 * 2.0 + algopy.exp(0.1 * u)                            # must still be recorded into cg3
+    cg3.trace_off()
+    if Function.cgraph is not None or s2 not in cg3.functionList or len(cg3.functionList) <= n_before:
+        ctx.violation('interleaved-recording:operations-after-evaluating-another-graph-not-recorded', {'nodes': len(cg3.functionList), 'before': n_before}); return
+    cg3.independentFunctionList = [u]; cg3.dependentFunctionList = [s2]
+    xe = rng.normal(size=3)
+    got3 = cg3.function([xe.copy()])[0]
+    if not np.allclose(got3, np.sin(xe) * xe * 2.0 + np.exp(0.1 * xe), rtol=1e-13):
+        ctx.violation('interleaved-recording:replay-value', {}); return
+    ctx.ok('interleaved-recording', ('interleaved', kind))
     # both graphs evaluate independently, interleaved
     for _ in range(2):
         xe = rng.normal(size=3)
